@@ -16,7 +16,7 @@ RULE = ('a case = a publication history (1-8 partial float series over 6 or 12-2
         'frame beyond 16 rows (where pandas switches sort algorithm). Compared in Coq with M_bitemp: every read (dates in order, values, NaN) '
         'and the complete store (date, stamp, value rows in frame order). The oracle recomputes each read from the property text by a plain '
         'loop over the history (latest stamp <= T, later merge wins a tie, NaN never overrides; what=0: value at the first stamp) and checks '
-        'that re-merging a version already in the store changes no read; Bi itself is checked on every version (same rows and values, every row stamped exactly, bitemporal input and asof=None returned unchanged). A separate stream merges out of stamp order (no claim; correspondence only). '
+        'that re-merging a version already in the store changes no read; a work stream keeps ONE one-column DataFrame (or Series) that is revised in place and published repeatedly (Bi(work, stamp) or bi_merge(store, work, stamp)) - the caller\'s table is snapshotted before / after each publication (no mutation, store not aliased) and the reads must show each publication as it was at its stamp; Bi itself is checked on every version (same rows and values, every row stamped exactly, bitemporal input and asof=None returned unchanged). A separate stream merges out of stamp order (no claim; correspondence only). '
         'non-trivial = at least two versions publish the same date; distinct by the whole case')
 EXPLANATION = ('theorems C17_* (coq/props/C17.v) hold for every publication history and every T by induction over the history (invariant: per date '
                'strictly increasing stamps, NaN only before the first value, column reads like the publication list); the correspondence ties the '
@@ -118,7 +118,14 @@ class StampViolation(Exception):
 def _bi(case, s, rows):
     """Bi(series, stamp) plus the direct check of the stamp assignment: same rows, same values, every row stamped exactly with the stamp"""
     ser = _series(case, rows); t = stamp_dt(case, s)
+    if case.get('input') == 'frame':          # the version handed over as a one-column DataFrame instead of a Series
+        ser0 = ser; ser = ser.to_frame(name='_is_series')
+    before = _frame_state(ser)
     b = Bi(ser, spell(t, case.get('stamp_form', 'dt')))
+    if _frame_state(ser) != before or b is ser:
+        raise StampViolation('Bi(x, stamp) changed / returned its input: %s -> %s' % (before[:2], _frame_state(ser)[:2]))
+    if case.get('input') == 'frame':
+        ser = ser0
     ok = (len(b) == len(ser) and list(b.index) == list(ser.index) and 'updated' in b.columns and len(b.columns) == 2
           and all(pd.Timestamp(u) == pd.Timestamp(t) for u in b['updated'])
           and all((x == y) or (x != x and y != y) for x, y in zip(b.drop(columns='updated').iloc[:, 0].values, ser.values)))
@@ -132,6 +139,8 @@ def _bi(case, s, rows):
 def _obs_read(r):
     if r is None or len(r) == 0:
         return []
+    if isinstance(r, pd.DataFrame) and r.shape[1] == 1:      # versions published as one-column frames read back as a one-column frame
+        r = r.iloc[:, 0]
     assert isinstance(r, pd.Series), type(r)
     return [[(t - D0).days, _val(x)] for t, x in zip(r.index, r.values)]
 
@@ -165,17 +174,57 @@ def expected(hist, t2, what):
 def _as_dict(obs):
     return {d: (None if v == 'NaN' else v) for d, v in obs}
 
+def _frame_state(x):
+    """everything a caller can see of its own Series / DataFrame: type, column labels, index, cell values"""
+    cols = [str(c) for c in x.columns] if isinstance(x, pd.DataFrame) else ['<series %s>' % (x.name,)]
+    vals = [['NaN' if v != v else v for v in row] for row in (x.values.tolist() if isinstance(x, pd.DataFrame) else [[v] for v in x.values.tolist()])]
+    return [type(x).__name__, cols, [str(t) for t in x.index], vals]
+
+def publish_work(case):
+    """the publisher keeps ONE working table (a one-column DataFrame, or a Series), revises it in place and publishes it again and again:
+    each publication must record the table as it is at that moment and must leave the caller's table untouched"""
+    hist = case['hist']; dates = [d for d, _ in hist[0][1]]
+    idx = pd.DatetimeIndex([D0 + DAY * d for d in dates], name=case.get('index_name'))
+    if case['work'] == 'df':
+        work = pd.DataFrame({'px': [float('nan')] * len(dates)}, index=idx)
+    else:
+        work = pd.Series([float('nan')] * len(dates), index=idx, dtype=float)
+    store = None; notes = []
+    for i, (s, rows) in enumerate(hist):
+        assert [d for d, _ in rows] == dates
+        for d, v in rows:                                  # revise in place
+            if case['work'] == 'df': work.loc[D0 + DAY * d, 'px'] = _pv(v)
+            else: work.loc[D0 + DAY * d] = _pv(v)
+        before = _frame_state(work); t = spell(stamp_dt(case, s), case.get('stamp_form', 'dt'))
+        if case.get('pub', 'Bi') == 'Bi':
+            b = Bi(work, t)
+            if b is work or len(b) != len(work) or not all(pd.Timestamp(u) == pd.Timestamp(stamp_dt(case, s)) for u in b['updated']):
+                notes.append('publication %d: Bi(work, %r) %s' % (i, t, 'returned the caller\'s own table' if b is work else 'stamps are %s' % sorted(set(map(str, b['updated'])))[:3]))
+            new_store = bi_merge(store, b)
+        else:
+            new_store = bi_merge(store, work, t)           # asof = stamp for a non-bitemporal new_data
+        after = _frame_state(work)
+        if after != before:
+            notes.append('publication %d (%s) changed the caller\'s working table: %s -> %s' % (i, case.get('pub', 'Bi'), before[:2] + before[3:], after[:2] + after[3:]))
+        if new_store is work:
+            notes.append('publication %d: the store IS the caller\'s working table (later in-place revisions would rewrite history)' % i)
+        store = new_store
+    return store, notes
+
 def impl(case):
-    hist = case['hist']
+    hist = case['hist']; notes = []
     ordered = all(hist[i][0] <= hist[i + 1][0] for i in range(len(hist) - 1))
     af = case.get('asof_form', 'dt')
     def read_all(st):
         return [_obs_read(bi_read(st, spell(asof_dt(case, t), af), w)) for t, w in case['reads']]
     try:
         store = None
-        for g in groups_of(case):
-            bis = [_bi(case, *hist[i]) for i in g]
-            store = bi_merge(store, bis[0] if len(bis) == 1 else bis)
+        if case.get('work'):
+            store, notes = publish_work(case)
+        else:
+            for g in groups_of(case):
+                bis = [_bi(case, *hist[i]) for i in g]
+                store = bi_merge(store, bis[0] if len(bis) == 1 else bis)
         reads = read_all(store)
         st_obs = _obs_store(case, store)
         k = case.get('again')
@@ -206,6 +255,8 @@ def impl(case):
                 j = [i for i in range(len(reads)) if reads[i] != reads2[i] and case['reads'][i][1] in (-1, 0)]
                 if j:
                     viol = 're-merging version %d (already in the store) changed the read %s: %s -> %s' % (k, case['reads'][j[0]], reads[j[0]], reads2[j[0]])
+    if notes:      # the caller's table was touched / aliased; say so, together with what it did to the reads
+        viol = notes[0] + ('' if viol is None else ' => ' + viol)
     return {'status': 'ok', 'obs': [reads, reads2, st_obs], 'viol': viol}
 
 def nontrivial(case, result):
@@ -223,7 +274,7 @@ def shape(case):
     era = 'past' if cal[-1] < FUTURE else 'future' if cal[0] >= FUTURE else 'past+future'
     h = case['hist']
     ordered = all(h[i][0] <= h[i + 1][0] for i in range(len(h) - 1))
-    extras = ''.join(':' + k for k in ('tod', 'groups', 'index_name', 'series_name', 'int_dtype') if case.get(k)) + \
+    extras = ''.join(':%s=%s' % (k, case[k]) for k in ('work', 'pub', 'input') if case.get(k)) + ''.join(':' + k for k in ('tod', 'groups', 'index_name', 'series_name', 'int_dtype') if case.get(k)) + \
              ''.join(':%s=%s' % (k, case[k]) for k in ('eps', 'stamp_form', 'asof_form') if case.get(k))
     vals = {v for _, rows in h for _, v in rows}
     return '%s:%s:v%d:%s%s%s%s%s' % (era, 'ordered' if ordered else 'unordered', len(h), 'rows>100' if n > 100 else 'rows>16' if n > 16 else 'rows<=16',
@@ -283,6 +334,18 @@ def gen_cases(rng, tier):
             case['cal'] = sorted(rng.sample(range(0, 400), k)) + sorted(rng.sample(range(FUTURE, FUTURE + 2000), 5 - k))
         decorate(rng, case)
         cases.append(case)
+    for _ in range(40 if tier == 'quick' else 400):   # ONE working table revised in place and published repeatedly
+        nd = rng.randrange(2, 9); nv = rng.randrange(2, 7)
+        ss = sorted(rng.randrange(5) for _ in range(nv))
+        cur = [None] * nd; hist = []
+        for s in ss:
+            for d in range(nd):
+                if rng.random() < 0.45:
+                    cur[d] = rng.choice([1, 2, 3, 3, None])      # revisions, reversions, a value withdrawn (NaN)
+            hist.append([s, [[d, cur[d]] for d in range(nd)]])
+        case = {'hist': hist, 'reads': all_reads(rng, None), 'again': None, 'work': rng.choice(['df', 'df', 'df', 'series']), 'pub': rng.choice(['Bi', 'Bi', 'merge'])}
+        decorate(rng, case, work=True)
+        cases.append(case)
     for _ in range(6 if tier == 'quick' else 40):     # frames of several hundred rows
         hist = gen_history(rng, rng.randrange(50, 80), rng.randrange(3, 6), 0.9)
         case = {'hist': hist, 'reads': [[t, w] for t in (None, 1, 4, 5, 8) for w in (-1, 0)], 'again': rng.choice([None, len(hist) - 1])}
@@ -290,7 +353,7 @@ def gen_cases(rng, tier):
         cases.append(case)
     return cases
 
-def decorate(rng, case):
+def decorate(rng, case, work=False):
     """kinds of input the statement's quantifier includes but plain histories never show"""
     hist = case['hist']
     ordered = all(hist[i][0] <= hist[i + 1][0] for i in range(len(hist) - 1))
@@ -306,8 +369,12 @@ def decorate(rng, case):
         case['asof_form'] = rng.choice(['ts', 'dt64', 'date'])
     if rng.random() < 0.25:
         case['index_name'] = rng.choice(['date', 'index', 'updated_on'])
+    if work:
+        return
     if rng.random() < 0.15:
         case['series_name'] = rng.choice(['px', 'value', 0])
+    elif rng.random() < 0.15:
+        case['input'] = 'frame'
     if rng.random() < 0.2:
         case['int_dtype'] = True
     if rng.random() < 0.15:       # infinite values are values like any other
